@@ -9,7 +9,10 @@ FAM = 1
 PERM, ADD, UPDATE, GET, SUB, RECV, DROP, PROVIDE, PROVDOWN, ACTUATE, BATCH, CLEANUP, SHUTDOWN, TICK, DUMP = range(15)
 OPN = ["PERM", "ADD", "UPDATE", "GET", "SUB", "RECV", "DROP", "PROVIDE", "PROVDOWN", "ACTUATE", "BATCH",
        "CLEANUP", "SHUTDOWN", "TICK", "DUMP", "?15", "?16", "?17", "?18", "?19", "V1GET", "V1SET", "V2GET", "V2GETS",
-       "V2PUB", "V2ACT", "V2BATCH", "V2META", "SDVGET", "SDVSET", "SDVUPD", "SDVREG", "SDVMETA"]
+       "V2PUB", "V2ACT", "V2BATCH", "V2META", "SDVGET", "SDVSET", "SDVUPD", "SDVREG", "SDVMETA", "V1SUB", "V2SUB"]
+V1SUB, V2SUB = 33, 34
+OPN += ["?%d" % k for k in range(len(OPN), 60)] + ["SPROV", "SPUB"]
+SPROV, SPUB = 60, 61
 V1GET, V1SET, V2GET, V2GETS, V2PUB, V2ACT, V2BATCH, V2META, SDVGET, SDVSET, SDVUPD, SDVREG, SDVMETA = range(20, 33)
 
 PATHS = ["Vehicle.Speed", "Vehicle.SpeedLimit", "Vehicle.Speed2", "Vehicle.Cabin.Door.Row1.Left",
@@ -362,6 +365,30 @@ class Gen:
         elif k == "sdvmeta":
             names = [r.choice([s[1] for s in self.sigs] + ["Vehicle.Nope"]) for _ in range(r.choice([0, 0, 1, 2]))]
             L.append([SDVMETA, p, len(names)] + sum([E.s(x) for x in names], []))
+        elif k == "v1sub":
+            # kuksa.val.v1 Subscribe: a leaf, a branch, now and then something unknown / invalid / over-long
+            # (wildcard selection is the glob family's subject)
+            leaves = [s[1] for s in self.sigs]
+            branches = sorted({".".join(x.split(".")[:n]) for x in leaves for n in range(1, x.count(".") + 1)})
+            c = r.random()
+            path = (r.choice(leaves) if c < 0.6 and leaves else r.choice(branches) if c < 0.85 and branches else
+                    r.choice(["Vehicle.Nope", "Vehicle..X", "A" * 1001, "", "Vehicle. X"]))
+            L.append([V1SUB, p, r.choice([1, 1, 1, 2, 3, 3, 5, 7, 0])] + E.s(path))
+            self.subs += 1
+        elif k == "v2sub":
+            # kuksa.val.v2 Subscribe (paths) / SubscribeById (ids) with a buffer size
+            n = r.choice([1, 1, 2, 3, 0])
+            by_id = r.random() < 0.5
+            body = []
+            for _ in range(n):
+                so = some()
+                c = r.random()
+                if by_id:
+                    body += [3, so[0] if (so and c > 0.1) else r.choice([999, -1])]
+                else:
+                    body += [2] + E.s(so[1] if (so and c > 0.1) else r.choice(["Vehicle.Nope", "A" * 1001, "", "Vehicle"]))
+            L.append([V2SUB, p, r.choice([0, 0, 1, 2, 5, 10, 1000, 1001, 100000]), n] + body)
+            self.subs += 1
 
 
 WIDE = {E.F32: [0x7FC00000, 0xFFC00001, 0x7F800001, 0x00000001, 0x807FFFFF, 0x7F7FFFFF, 0xFF800000],
@@ -370,7 +397,10 @@ WIDE = {E.F32: [0x7FC00000, 0xFFC00001, 0x7F800001, 0x00000001, 0x807FFFFF, 0x7F
         E.I32: [-2**31, 2**31 - 1], E.I64: [-2**63, 2**63 - 1], E.U32: [2**32 - 1], E.U64: [2**64 - 1],
         E.STR: ["", "ä-ö", "a" * 300, " ", "\u0000x"]}
 API_KINDS = ("v1get", "v1set", "v2get", "v2gets", "v2pub", "v2act", "v2batch", "v2meta", "sdvget", "sdvset",
-             "sdvupd", "sdvreg", "sdvmeta")
+             "sdvupd", "sdvreg", "sdvmeta", "v1sub", "v2sub")
+# handler-level subscriptions (v1 Subscribe, v2 Subscribe / SubscribeById) among writes through every API
+W_APISUB = {"v1sub": 3, "v2sub": 3, "recv": 6, "drop": 0.7, "v1set": 4, "v2pub": 4, "sdvupd": 3, "sdvset": 2, "update": 4,
+            "cleanup": 0.8, "tick": 0.4, "shutdown": 0.1, "add": 0.4, "get": 0.5}
 W_API = {"v1get": 3, "v1set": 4, "v2get": 3, "v2gets": 1.5, "v2pub": 4, "v2act": 2, "v2batch": 2, "v2meta": 1,
          "sdvget": 2, "sdvset": 2, "sdvupd": 3, "sdvreg": 1, "sdvmeta": 1, "update": 2, "get": 1, "provide": 1.5,
          "provdown": 0.3, "cleanup": 0.3, "tick": 0.4, "add": 0.5}
@@ -382,6 +412,80 @@ W_ACT = {"provide": 3, "actuate": 5, "batch": 5, "provdown": 1, "cleanup": 1.2, 
 W_REG = {"add": 8, "get": 3, "update": 3, "sub": 0.5, "tick": 0.3}
 W_MIX = {"update": 6, "get": 3, "add": 1, "sub": 2, "recv": 3, "drop": 0.4, "provide": 1.5, "actuate": 2, "batch": 2,
          "provdown": 0.5, "cleanup": 0.8, "tick": 0.4, "shutdown": 0.1}
+
+
+def stream_scenario(rng):
+    """kuksa.val.v2 OpenProviderStream on the real server: providers claim actuators through their streams
+    (identifiers by id, by path, mixed, in every order; claims that must fail: unknown path, overlap, no actuate
+    scope), callers actuate singly and in batches, providers publish values (valid, ill-typed, unknown ids,
+    without provide scope) through the same streams; the state and every provider's inbox dumped after each"""
+    L = [[PERM, 0] + E.s(ALL_SCOPE), [PERM, 0] + E.s(ALL_SCOPE), [PERM, 0] + E.s("actuate provide:Vehicle.S.Act0 read"),
+         [PERM, 0] + E.s("read")]
+    n = rng.randrange(4, 8)
+    names = ["Vehicle.S.Act%d" % i for i in range(n)]
+    for i in range(n):
+        L.append([ADD, 0] + E.s(names[i]) + [rng.choice([4, 4, 1, 10, 16]), rng.randrange(3), 2, 0, 0, 0])
+    L.append([ADD, 0] + E.s("Vehicle.S.Sen") + [4, 1, 0, 0, 0, 0])
+    types = {i: L[4 + i][-6] for i in range(n)}
+    sensor = n
+
+    def val(i, ok=True):
+        t = types.get(i, 4)
+        good = {4: E.val(E.I32, rng.randrange(100)), 1: E.val(E.BOOL, rng.random() < 0.5),
+                10: E.val(E.F32, V.F(float(rng.randrange(50)))), 16: E.val(E.I32A, [rng.randrange(9) for _ in range(rng.randrange(3))])}[t]
+        return good if ok else rng.choice([E.val(E.STR, "x"), E.val(E.I64, 2**40), E.val(E.U64, 7)])
+
+    def ident(i):
+        return [3, i] if rng.random() < 0.5 else [2] + E.s(names[i] if i < n else "Vehicle.S.Sen")
+
+    ids = list(range(n))
+    rng.shuffle(ids)
+    k = rng.randrange(1, n - 1)
+    claims = [(1, ids[:k]), (2, ids[k:n - 1])]
+    free = ids[n - 1:]
+    handles = {}            # handle -> (principal, ids)
+    next_h = 0
+    for p, mine in claims:
+        body = sum((ident(i) for i in mine), [])
+        extra = rng.choice([[], [0], [1]])
+        L.append([SPROV, p, len(mine) + len(extra)] + body + sum(([x] for x in extra), []))
+        handles[next_h] = (p, mine)
+        next_h += 1
+    # claims that must fail and allocate nothing
+    for _ in range(rng.randrange(0, 3)):
+        c = rng.random()
+        if c < 0.35:
+            L.append([SPROV, 1, 2] + [2] + E.s("Vehicle.S.Nope") + ident(free[0]))
+        elif c < 0.7:
+            L.append([SPROV, 1, 2] + ident(free[0]) + ident(claims[0][1][0]))
+        else:
+            L.append([SPROV, 3, 1] + ident(free[0]))
+    L.append([DUMP])
+    owned = [i for _, m in claims for i in m]
+    for _ in range(rng.randrange(6, 16)):
+        c = rng.random()
+        p = rng.choice([0, 0, 1, 2, 3])
+        if c < 0.3:
+            i = rng.choice(owned + free + [sensor])
+            L += [[ACTUATE, p, i] + val(i, rng.random() < 0.85)]
+        elif c < 0.6:
+            xs = rng.sample(owned, min(len(owned), rng.randrange(1, 4)))
+            if rng.random() < 0.2:
+                xs.append(rng.choice(free + [sensor, n + 7]))
+            rng.shuffle(xs)
+            L += [[BATCH, p, len(xs)] + sum(([i] + val(i, rng.random() < 0.9) for i in xs), [])]
+        else:
+            h = rng.choice(sorted(handles))
+            hp, mine = handles[h]
+            xs = rng.sample(range(n + 1), rng.randrange(1, 4))
+            if rng.random() < 0.2:
+                xs.append(n + 9)
+            body = []
+            for i in xs:
+                body += [i] + ([0] if rng.random() < 0.08 else [1] + val(i, rng.random() < 0.8))
+            L += [[SPUB, hp, h, len(xs)] + body]
+        L.append([DUMP])
+    return L
 
 
 def gen_history(rng, weights, length=(8, 40), eager=False, **kw):
@@ -409,7 +513,7 @@ def dec_opt(t, i):
 def parse_op(l):
     op = l[0]
     d = {"op": op, "name": OPN[op] if 0 <= op < len(OPN) else "?"}
-    if 20 <= op <= 32:
+    if 20 <= op <= 34 or op in (60, 61):
         d["p"] = l[1] if len(l) > 1 else -1
         d["raw"] = l
     try:
@@ -589,6 +693,32 @@ def show_api(l):
                     v = E.show_val(vv)
                 out.append("id%d=%s" % (x, v))
             return "[" + "; ".join(out) + "]"
+        if op == V1SUB:
+            return "fields=%s path=%r" % ("+".join(n for b, n in ((1, "value"), (2, "target"), (4, "unit")) if l[2] & b) or "none",
+                                           _str(l, 3)[0][:60])
+        if op == V2SUB:
+            out, i = [], 4
+            for _ in range(l[3]):
+                s_, i = _sig(l, i)
+                out.append(s_)
+            return "buffer_size=%d [%s]" % (l[2], ", ".join(out))
+        if op == SPROV:
+            out, i = [], 3
+            for _ in range(l[2]):
+                s_, i = _sig(l, i)
+                out.append(s_)
+            return "provider stream: ProvideActuation [%s]" % ", ".join(out)
+        if op == SPUB:
+            out, i = [], 4
+            for _ in range(l[3]):
+                x = l[i]
+                if l[i + 1] == 0:
+                    v, i = "value-unset", i + 2
+                else:
+                    vv, i = E.dec_val(l, i + 2)
+                    v = E.show_val(vv)
+                out.append("id%d=%s" % (x, v))
+            return "provider stream %d: PublishValues [%s]" % (l[2], "; ".join(out))
         if op == SDVREG:
             out, i = [], 3
             for _ in range(l[2]):
@@ -642,6 +772,39 @@ def split_outputs(lines, out):
             res.append((d, [out[i]]))
             i += 1
     return res if i == len(out) else None
+
+
+def canon_messages(out):
+    """subscription messages as they look after a trip through kuksa.val.v1: a datapoint (or target) without a
+    value is absent on that wire, and with it its timestamp"""
+    res = []
+    for l in out or []:
+        if not l or l[0] != 100:
+            res.append(l)
+            continue
+        try:
+            o, i = [100, l[1]], 2
+            for _ in range(l[1]):
+                o += [l[i], l[i + 1]]
+                i += 2
+                if l[i] == 0:
+                    o.append(0)
+                    i += 1
+                else:
+                    v, j = E.dec_val(l, i + 1)
+                    o += [0] if v[0] == E.NA else l[i:j + 1]
+                    i = j + 1
+                if l[i] in (0, 1):
+                    o.append(l[i])
+                    i += 1
+                else:
+                    v, j = E.dec_val(l, i + 1)
+                    o += [1] if v[0] == E.NA else l[i:j + 1]
+                    i = j + 1
+            res.append(o)
+        except (IndexError, TypeError):
+            res.append(l)
+    return res
 
 
 def dec_dump(ls):
@@ -884,6 +1047,52 @@ def normalize(d, o, byname, meta):
                                  "min": None, "max": None, "allowed": None}, [[0, sid]]))
             else:
                 res.append(({"name": "RESYNC", "op": -1}, [[0]]))
+        elif op == SPROV:
+            # an accepted claim through the provider stream is the core claim of the ids, then the resolved paths
+            if first[0] != 0:
+                return []
+            ids, paths_, i = [], [], 3
+            for _ in range(l[2]):
+                k = l[i]
+                sid, i = _read_sig(l, i, byname)
+                if sid is not None:
+                    (paths_ if k == 2 else ids).append(sid)
+            res.append(({"name": "PROVIDE", "op": PROVIDE, "p": p, "ids": ids + paths_, "via": "stream"}, [first]))
+        elif op == SPUB:
+            ups, i = [], 4
+            for _ in range(l[3]):
+                sid = l[i]
+                if l[i + 1] == 0:
+                    v, i = (E.NA, None), i + 2
+                else:
+                    v, i = E.dec_val(l, i + 2)
+                ups.append({"id": sid, "flags": 1, "dp": v})
+            if first[0] != 0:
+                return []
+            res.append(({"name": "UPDATE", "op": UPDATE, "p": p, "ups": ups, "via": "stream"}, [first[1:]]))
+        elif op == V1SUB:
+            # an accepted handler subscription is the core subscription of the selected signals
+            if first[0] != 0:
+                return []
+            path, _ = _str(l, 3)
+            if path == "":
+                ids = sorted(byname.values())          # the empty pattern selects everything
+            elif path in byname:
+                ids = [byname[path]]
+            else:
+                ids = sorted(i for n, i in byname.items() if n.startswith(path + "."))
+            res.append(({"name": "SUB", "op": SUB, "p": p, "buf": None, "entries": [(i, l[2] & 7) for i in ids],
+                         "via": "v1"}, [first]))
+        elif op == V2SUB:
+            if first[0] != 0:
+                return []
+            ids, i = [], 4
+            for _ in range(l[3]):
+                sid, i = _read_sig(l, i, byname)
+                if sid is not None and sid not in ids:
+                    ids.append(sid)
+            res.append(({"name": "SUB", "op": SUB, "p": p, "buf": l[2], "entries": [(i, 1) for i in ids], "via": "v2"},
+                        [first]))
     except (IndexError, TypeError, KeyError):
         return []
     return res
